@@ -168,7 +168,10 @@ def listener_plans(draw, calls, max_plans=2):
     return plans
 
 
-HOOK_SITES = ['on_run', 'on_running', 'on_exit_running', 'on_wait', 'on_waiting', 'on_exit_waiting', 'on_finish', 'on_finished', 'on_entering', 'on_entered', 'on_exiting', 'on_output_emitted', 'on_kill', 'on_paused', 'on_playing']
+HOOK_SITES = ['on_run', 'on_running', 'on_exit_running', 'on_wait', 'on_waiting', 'on_exit_waiting', 'on_finish', 'on_finished', 'on_entering', 'on_entered', 'on_exiting', 'on_output_emitted', 'on_kill', 'on_killed', 'on_excepted', 'on_paused', 'on_playing']
+# fail() cannot be called while a transition is in progress (plumpy asserts): a hook may only call it where the
+# terminal state has been entered already, and there it must be a no-op
+FAIL_HOOK_SITES = ['on_finished', 'on_killed', 'on_excepted']
 
 
 @st.composite
@@ -179,6 +182,9 @@ def hook_plans(draw, calls, max_plans=2):
     for _ in range(n):
         what = draw(st.sampled_from(calls))
         arg = draw(TEXTS) if what in ('pause', 'kill') else None
+        if what == 'fail':
+            plans.append({'hook': draw(st.sampled_from(FAIL_HOOK_SITES)), 'occ': 1, 'pos': draw(st.sampled_from(['pre', 'post'])), 'do': ['fail', 'hf']})
+            continue
         plans.append({'hook': draw(st.sampled_from(HOOK_SITES)), 'occ': draw(st.integers(1, 3)), 'pos': draw(st.sampled_from(['pre', 'post'])), 'do': [what, arg]})
     return plans
 
